@@ -214,7 +214,7 @@ def hyp_shrink(strategy, predicate, seed, n=400):
         return None
 
 
-def shrink_failures(acc, strategy, bucket_of, seed, limit=5):
+def shrink_failures(acc, strategy, bucket_of, seed, limit=3, budget=20):
     """Collect-then-shrink: for each new (unknown) bucket of this shard try to
     replace its recorded case by a Hypothesis-minimised one."""
     done = 0
@@ -225,7 +225,7 @@ def shrink_failures(acc, strategy, bucket_of, seed, limit=5):
         t0 = time.time()
 
         def pred(c, bucket=bucket):
-            if time.time() - t0 > 60:
+            if time.time() - t0 > budget:
                 return False
             try:
                 return bucket_of(c) == bucket
